@@ -93,7 +93,7 @@ CHECKS = {
         "iff both end junctions are flagged and the rest keep their order; the re-alignment puts -1 exactly at excluded positions and the "
         "k-th remaining position holds the k-th solver value, for every list. Per run: flagged set and unknown list compared exactly with "
         "the model (cos(limit) as a rational, pairs within 1e-9 of the limit rejected), re-alignment compared position by position, flagged "
-        "junctions recomputed from closed-form tangents (margin 0.1 rad), restricted system solved independently, default limit excludes nothing.",
+        "junctions recomputed from closed-form tangents (margin 0.1 rad), restricted system solved independently, default limit excludes nothing. End to end in the model (Props/C16system.lean): a junction is flagged iff two distinct incident interfaces open by at least the limit (exceeds_iff_angle), an interface is excluded iff both ends are flagged and the rest keep their order (angle_limit_rule), the mean row counts the remaining interfaces (addMeanOne_last_rhs), the report holds -1 at excluded positions and the restricted solution elsewhere in order (report_spec), nothing is excluded by default, and all of it is invariant under storage order (storage_variants_limit).",
    design_ref="DESIGN.md §7 C16",
    technique="Lean 4 theorems over Rat model of the angle test and re-alignment + differential check against ForceMatrix",
    note=BASE_NOTE + " arccos/cos are IEEE functions; the exact model decision uses the float's rational cos(limit)."),
@@ -259,7 +259,7 @@ CHECKS = {
         "curvature ingredients, areas and area signs transform as they should; rotating every junction's (x,y) residual pair preserves the "
         "squared residual; the adimensional right-hand side is unit free. Per run: original vs transformed pose (translation to 1e4 sizes, any "
         "rotation, reflection, scale 1e-3..1e3): coefficient pairs, tensions per physical interface, pressures per physical cell; dynamic tensions "
-        "under length and time-unit factors. Known findings: D2 and KF4 (multiplier column not covariant for tissues out of balance).",
+        "under length and time-unit factors. Known findings: D2 and KF4 (multiplier column not covariant for tissues out of balance). System level (Props/C06system.lean): under translation and change of length unit the assembled force matrix and the pressure system are identical; under rational rotations / the reflection the row pairs rotate / flip when the sign rule agrees with the geometry in both poses (necessary: witness = finding D2), so ||A x||^2 is invariant for every x, while the augmented residual is invariant only at zero multiplier (witness = finding KF4); the pressure system is identical (negated on both sides under reflection).",
    design_ref="DESIGN.md §7 C06",
    technique="Lean 4 equivariance theorems over Rat models + metamorphic differential check",
    note=BASE_NOTE + " Irrational rotation angles are covered by the metamorphic run only."),
